@@ -15,7 +15,7 @@ def harness():
 def gen_layout(rng, big=False):
     roots = ["/w", "/lib", "/alt"][: rng.randrange(1, 4)]
     cwd = rng.choice(roots + ["/w/sub"] if "/w" in roots else roots)
-    sps = [r for r in roots[1:] if rng.random() < 0.8]
+    sps = [r for r in roots[1:] if rng.random() < 0.7 and (r != cwd or rng.random() < 0.3)]
     rng.shuffle(sps)
     pkgs = [[], ["a"], ["a", "b"], ["x"], ["bloch", "lang"], ["bloch", "util"]]
     nmod = rng.randrange(2, 9 if big else 7)
@@ -39,6 +39,17 @@ def gen_layout(rng, big=False):
                      "functions": ["m%d" % i], "bad": rng.random() < 0.03})
     if not mods:
         return None
+    # shadowing candidates: the same package-qualified module in a second (and third) root, distinguishable by its marker
+    for m in list(mods):
+        if rng.random() < 0.35:
+            for other in roots:
+                if other != m["path"].split("/")[1] and rng.random() < 0.6:
+                    path = "/" + other.strip("/") + "".join("/" + p for p in m["dirpkg"]) + "/" + m["name"] + ".bloch"
+                    if path not in used:
+                        used.add(path)
+                        j = len(mods)
+                        mods.append({"path": path, "pkg": m["pkg"], "dirpkg": m["dirpkg"], "name": m["name"], "imports": [],
+                                     "classes": ["K%d" % j], "functions": ["m%d" % j], "bad": False})
     entry = {"path": "/w/main.bloch" if "/w" in roots else roots[0] + "/main.bloch", "pkg": None, "dirpkg": [], "name": "main",
              "imports": [], "classes": [], "functions": ["e0"], "bad": False}
     mods.append(entry)
